@@ -69,15 +69,16 @@ PROPS = {
                  'a skiplist operation is one atomic step of the model (C13); keys are modelled as Nat under <, standing for any lawful total order'],
     ),
     'C01': dict(
-        modules=['NitroVerif.Props.C01', 'NitroVerif.Props.C01c'],
+        modules=['NitroVerif.Props.C01', 'NitroVerif.Props.C01c', 'NitroVerif.Props.C01cc'],
         runs=[('mvcc', gens.gen_mvcc, 300, 30000), ('mvcc', gens.gen_mvcc_iter, 150, 10000), ('mvcc', gens.gen_mvcc_visit, 100, 5000)],
         iruns=[('mvccconc', gens.gen_mvccconc, 100, 5000)],
         keep_prefix=1,
         level='proof',
-        level_text='C01_view_invariant, C01_content_fixed, C01_scan and C01_scan_interleaved (an open snapshot presents exactly the content fixed at its creation, whatever operations, snapshot closes and collections are interleaved with the scan) are proved for every reachable state of the MVCC model; for a reader stepping concurrently with writers, closes and collection jobs the small-step model proves C01_conc_scan_no_duplicates_partial and C01_conc_cursor_monotone (no version delivered twice, cursor monotone; C01_unfixed_duplicate_witness is the kernel-checked witness of defect D22) and the steered engine validates such schedules',
+        level_text='C01_view_invariant, C01_content_fixed, C01_scan and C01_scan_interleaved (an open snapshot presents exactly the content fixed at its creation, whatever operations, snapshot closes and collections are interleaved with the scan) are proved for every reachable state of the MVCC model; for a reader stepping CONCURRENTLY with writers, closes, collectors, collection and free jobs the small-step model (every schedule, any number of writers and readers; Props/C01cc) proves the property in full: C01_conc_view_fixed / C01_conc_view_fixed_run (no action of any thread or job changes the view of a snapshot that is open), C01_conc_one_version_per_key, C01_conc_scan_prefix and C01_conc_scan_complete (a scan that answered `end` delivered exactly the view as it was at it_first — every visible version once, in comparator order, with its value — whatever was put, deleted, re-inserted, unlinked or freed around the cursor meanwhile), C01_conc_scan_keys_increasing_full, C01_conc_count / C01_conc_count_at_creation, C01_conc_collector_frontier (a node a collection job may still unlink is invisible to every open snapshot), with C01_conc_cursor_monotone and the kernel-checked witness C01_unfixed_duplicate_witness of defect D22 (Props/C01c); the steered engine validates such schedules on the real code',
         trusted=['Lean 4 kernel', 'tools/gofacts translation of skipUnwanted, comparators, gc frontier test and skeletons',
                  'differential run: after random histories every open snapshot is scanned (item by item, with mutations in between) and compared with the model',
-                 'granularity: one skiplist operation = one atomic step; collection is performed at the Close that enables it'],
+                 'granularity: one skiplist operation = one atomic step (C13_linearizable); in the sequential engine collection is performed at the Close that enables it, in the small-step engine by separate jobs',
+                 'in 30% of the runs the application chains its live nodes through Node.link (nitro.NodeList), as an index built on nitro does'],
     ),
     'C09': dict(
         modules=['NitroVerif.Props.C09'],
